@@ -4,6 +4,7 @@ CONSTANTS
   ConRecs <- MC_ConRecsP
   MaxCons = 1
   Methods <- MC_MethodsAll
+  OptSets <- MC_OptSets
   FaultExcs <- MC_Excs
   OnlySuccess = FALSE
   EditInvalidates = TRUE
